@@ -11,4 +11,4 @@ CONSTANTS
   Replays <- AllReplays
 INIT Init
 NEXT Next
-INVARIANTS TypeOK MonotoneLast CacheIsLastAccepted ReplayRejected ReplayAsFresh KnownIsPresented ReplaySourced EmitHist
+INVARIANTS TypeOK MonotoneLast CacheIsLastAccepted ReplayRejected ReplayAsFresh KnownIsPresented ReplaySourcedLast EmitHist
